@@ -3,7 +3,7 @@ CONSTANTS
   Origins = {1, 2}
   MaxW = 2
   MaxH = 1
-  TypeSet = {"String", "f64", "i64", "bool", "Data", "OptString", "Optf64", "Opti64", "Optbool", "I64OrNone", "F64OrNone"}
+  TypeSet = {"String", "f64", "i64", "bool", "Data", "OptString", "Optf64", "Opti64", "Optbool", "I64OrNone", "F64OrNone", "I64OrString", "F64OrString"}
   CodeSet = {"E", "S0", "Sx", "S12", "Spad", "I7", "I0", "F0", "F0.5", "Ibig", "F1.5", "F2", "S1.5", "B1", "B0", "STRUE", "Sfalse", "Strue", "STrue", "SFALSE", "SFalse", "XDiv0", "XNA"}
   CfgKinds = {"none", "all", "custom"}
   ShapeSet = {"tuple"}
